@@ -121,7 +121,7 @@ PROPS = {
     ),
     "C17": dict(
         level="proof",
-        specs=["specs.c17_purity"],
+        specs=["specs.c17_purity", "specs.c20_boot"],
         bounded=["bounded.c17_purity", "bounded.c17_loading", "bounded.frames_selftest"],
     ),
 }
